@@ -56,6 +56,12 @@ def model_value(m, kind, term):
         return z3.is_true(m.eval(term, model_completion=True))
     if kind == 'bv':
         return m.eval(term, model_completion=True).as_long()
+    if kind == 'abytes':
+        arr, n = term
+        ln = m.eval(n, model_completion=True).as_long()
+        if ln > 4096:
+            raise ValueError('model length too large to replay')
+        return [m.eval(z3.Select(arr, i), model_completion=True).as_long() % 256 for i in range(ln)]
     if kind == 'bytes':
         return [m.eval(t, model_completion=True).as_long() for t in term]
     raise ValueError(kind)
@@ -278,6 +284,17 @@ def verify_unit(unit, repo, opts):
                 res['solver_s'] += dt
                 rec = {'oid': oid, 'status': st, 'backend': be, 's': round(dt, 4), 'kind': meta.get('kind', '?')}
                 if st == 'sat':
+                    ab = [t for (k, t) in c.inputs.values() if k == 'abytes']
+                    if ab:
+                        # look for a small counter-model (same obligation, lengths <= 48, small positions) for the replay
+                        small = [t[1] <= 48 for t in ab] + [z3.And(t >= -64, t <= 64) for (k, t) in c.inputs.values() if k == 'int']
+                        # pairwise different content, so that reading from a wrong position shows in the bytes
+                        distinct = [z3.Select(t[0], i) == (i * 37 + 11) % 256 for t in ab for i in range(48)]
+                        for extra in (small + distinct, small):
+                            st2, be2, dt2, model2, _ = solve(pc + extra, goal, min(timeout_ms, 5000), use_cvc5=False)
+                            if st2 == 'sat':
+                                model = model2
+                                break
                     vals = {}
                     for name, (kind, term) in c.inputs.items():
                         try:
